@@ -43,19 +43,9 @@ func c11WindowKey(caps []sfCapture, ci int) string {
 	prev := "start"
 	if ci > 0 {
 		p := caps[ci-1].Before
-		prev = p.Kind + "(" + c11FileClass(p.File) + ")"
+		prev = p.Kind + "(" + sfFileClass(p.File) + ")"
 	}
-	return fmt.Sprintf("crash-after-%s-before-%s(%s)", prev, c.Kind, c11FileClass(c.File))
-}
-
-func c11FileClass(f string) string {
-	if strings.HasSuffix(f, ".compact") {
-		return "compact"
-	}
-	if f == "" {
-		return "-"
-	}
-	return "snap"
+	return fmt.Sprintf("crash-after-%s-before-%s(%s)", prev, c.Kind, sfFileClass(c.File))
 }
 
 func TestC11(t *testing.T) {
@@ -124,7 +114,7 @@ func TestC11(t *testing.T) {
 			for k := range hook.caps {
 				c := &hook.caps[k]
 				stats["crash_points"]++
-				stats["crash_before_"+c.Before.Kind+"_"+c11FileClass(c.Before.File)]++
+				stats["crash_before_"+c.Before.Kind+"_"+sfFileClass(c.Before.File)]++
 				if c.Dup {
 					stats["same_directory_as_previous_point"]++
 					continue
